@@ -18,6 +18,6 @@ if [ $ok = 1 ]; then echo "SUITE: pass (attempt $i)"; else echo "SUITE: FAIL"; g
 for c in $CHECKS; do
   VERIF_REPO="$WT" /verif/run $c quick > "$WT/check.$c.out" 2>&1; rc=$?
   echo "CHECK $c quick: exit $rc"
-  grep -A1 "^VIOLATION" "$WT/check.$c.out" | grep "^\s" | head -4 | cut -c1-260
+  grep -a -A1 "^VIOLATION" "$WT/check.$c.out" | grep "^\s" | head -4 | cut -c1-260
   tail -1 "$WT/check.$c.out" | cut -c1-200
 done
